@@ -55,6 +55,7 @@ def run(tier):
     for w in sorted(sp["malformed"]):
         scs.append(dict(mode="malformed", what=w, sid="malformed[%s]" % w))
     scs.append(dict(mode="multi_option", sid="options[same section / absent section]"))
+    scs.append(dict(mode="shared_rc", sid="shared_rc[option then plain then saved, one path, one process]"))
     with_alt = [f for f in fields if f["alts"] is not None]
     singles = list(usable)
     rnd.shuffle(singles)
